@@ -13,7 +13,12 @@ Inductive op := Or | Xor | And.
 Definition lvl (o : op) : nat := match o with Or => 1 | Xor => 2 | And => 3 end.
 Definition op_eqb (a b : op) := Nat.eqb (lvl a) (lvl b).
 
-Inductive expr := Atom (n : nat) | Comb (o : op) (items : list expr).
+Section Climb.
+(* the atoms (simple expressions) are of an arbitrary type: the theorem is instantiated at the parser
+   model's own AST in Proofs/ClimbText.v *)
+Context {A : Type}.
+
+Inductive expr := Atom (a : A) | Comb (o : op) (items : list expr).
 Definition chain := list (op * expr).
 Definition simple (e : expr) := match e with Atom _ => True | Comb _ _ => False end.
 
@@ -231,3 +236,5 @@ Proof.
   destruct HA as [[H _]|[_ H]]; [|exact H].
   destruct ((tail_and la ++ tail_xor l) ++ tail_or xs) as [|[? ?] ?]; discriminate H.
 Qed.
+
+End Climb.
